@@ -466,7 +466,14 @@ def gen_component(rng, kind, vt, n_events):
                 now = max(now, t / 1e6)
                 do({"op": nm, "now": us(now)})
             elif r < 0.42:
-                do({"op": "register", "a": rng.choice(addrs[:2]), "ttl": rng.choice([-1, 0, 1, 2, 5, 30, 300, 65535])})
+                ttl = rng.choice([-1, 0, 1, 2, 5, 30, 300, 65535])
+                do({"op": "register", "a": rng.choice(addrs[:2]), "ttl": ttl})
+                d = rng.random()
+                if ttl > 0 and d < 0.2:
+                    do({"op": "unregister"})                 # back to back, nothing sent yet
+                elif ttl > 0 and d < 0.4:
+                    do({"op": "renew", "now": us(now)})      # request in flight, no Result yet
+                    do({"op": "unregister"})
             elif r < 0.47:
                 do({"op": "unregister"})
             elif r < 0.6:
@@ -562,6 +569,22 @@ def comp_oracle(ctx, kind, cfg, events, replies):
                 if back != via_bdt:
                     ctx.fail("echo", case, "Distribute-Broadcast forwarded back to its sender %d times (BDT explains %d)" % (back, via_bdt))
         if kind == "foreign":
+            # unregister(), at any point of the device's life: TTL 0 goes to the BBMD, the device has left,
+            # nothing stays armed, and no later acknowledgement brings it back until register() is called
+            if ev["op"] == "unregister":
+                prev = replies[i - 1]["st"] if i else ["foreign", -1, None, None, None, None]
+                if prev[2] is not None:
+                    want = ["send", ["s"] + prev[2], ["reg", 0]]
+                    if [o for o in r["out"] if o[0] == "send"] != [want]:
+                        ctx.fail("unregister-not-sent", case, "unregister() with BBMD %r (status %r) sent %r, expected "
+                                 "Register-Foreign-Device TTL 0" % (prev[2], prev[1], [o for o in r["out"] if o[0] == "send"]))
+                    if st != ["foreign", -2, None, None, None, None]:
+                        ctx.fail("unregister-ignored", case, "after unregister() the device is %r" % (st,))
+            last_un = max([j for j in range(i + 1) if events[j]["op"] == "unregister" and
+                           (j == 0 or replies[j - 1]["st"][2] is not None)] or [-1])
+            last_reg = max([j for j in range(i + 1) if events[j]["op"] == "register" and events[j]["ttl"] > 0] or [-1])
+            if last_un > last_reg and (st[1] == 0 or st[4] is not None):
+                ctx.fail("unregister-ignored", case, "after unregister() (event %d) the device is %r" % (last_un, st))
             # renewal is armed no later than TTL after it fired; expiry tracking TTL+30 after the ack
             if ev["op"] == "renew" and st[3] is not None and st[4] is not None:
                 if st[4] - ev["now"] != st[3] * 1000000:
@@ -674,23 +697,50 @@ def gen_world(rng, quick=True):
     manual = []
     n_ev = rng.randrange(20, 41 if quick else 61)
     detached = set()
+    seq = [1000]
+
+    def leaving(ev, f, b):
+        """directed follow-up of every unregistration (plain, same instant as register(), request in
+        flight): optionally a second unregister() 200 us later, then — just after the 5 s grace — a
+        Read-FDT over the wire at the BBMD concerned and a broadcast"""
+        out = []
+        if rng.random() < 0.3:
+            out.append({"op": "unregister", "a": f, "t": ev["t"] + 200})
+        alive = [a for a in bbmds + simples if tuple(a) not in detached]
+        if alive and b in bbmds:
+            out.append({"op": "sap", "a": rng.choice(alive), "to": b, "msg": ["rfdt"], "t": ev["t"] + 5000500})
+        if alive:
+            seq[0] += 1
+            out.append({"op": "bcast", "a": rng.choice(alive), "data": "%04x" % seq[0] + "bb", "t": ev["t"] + 5000700})
+        return out
+
     for k in range(n_ev):
         t_int += rng.choice([1, 1, 1, 2, 3, 4, 5, 6, 7, 11, 30, 31, 36, 64, 150, 306])
         frac = 0.001 * (k + 1) if rng.random() < 0.5 else 1.0 - 0.001 * (k + 1)
         t = START + t_int + frac
         r = rng.random()
         ev = None
+        after = []
         if fds and (r < 0.22 or (k < len(fds) and r < 0.8)):
             f = fds[k % len(fds)] if k < len(fds) else rng.choice(fds)
             targets = bbmds if rng.random() < 0.9 else (simples + [[net_ip(9) + 9, PORT]])
-            if targets:
+            if targets and tuple(f) not in detached:
                 b = rng.choice(targets)
                 ttl = rng.choice([1, 2, 3, 5, 10, 30, 60, 120, 299, 300, rng.randrange(1, 301)])
-                ev = {"op": "register", "a": f, "bbmd": b, "ttl": ttl}
-                reg[tuple(f)] = b
+                if rng.random() < 0.25:
+                    # register() and unregister() in the same instant: back to back, or with the request
+                    # already in flight (renewal task run, Result not yet back)
+                    ev = {"op": "regunreg", "a": f, "bbmd": b, "ttl": ttl, "variant": rng.choice(["pair", "fly"])}
+                    reg.pop(tuple(f), None)
+                    ev["t"] = us(t)
+                    after = leaving(ev, f, b)
+                else:
+                    ev = {"op": "register", "a": f, "bbmd": b, "ttl": ttl}
+                    reg[tuple(f)] = b
         elif r < 0.28 and reg:
             f = list(rng.choice(sorted(reg)))
-            ev = {"op": "unregister", "a": f}
+            ev = {"op": "unregister", "a": f, "t": us(t)}
+            after = leaving(ev, f, reg[tuple(f)])
             del reg[tuple(f)]
         elif r < 0.36 and bbmds and everyone:
             x = rng.choice(fds + manual) if (fds + manual) and rng.random() < 0.85 else rng.choice(everyone)
@@ -721,6 +771,9 @@ def gen_world(rng, quick=True):
             continue       # a detached node cannot act (vlan raises "unbound node")
         ev["t"] = us(t)
         events.append(ev)
+        if after:
+            events.extend(after)
+            t_int += 6
     return {"stream": "world", "mode": mode, "layout": layout, "events": events}
 
 
@@ -785,6 +838,15 @@ class RealWorld:
                 nd["ase"].request(mk_bvll(ev["msg"], dst=mk_addr(ev["to"])))
             elif op == "register":
                 nd["bip"].register(mk_addr(ev["bbmd"]), ev["ttl"])
+            elif op == "regunreg":
+                nd["bip"].register(mk_addr(ev["bbmd"]), ev["ttl"])
+                if ev["variant"] == "fly":
+                    # the real task manager runs the renewal task: the request is now in flight
+                    task, _delta = self.vt.tm.get_next_task()
+                    if task is not nd["bip"]:
+                        raise core.Infra("expected the renewal task to be due first")
+                    self.vt.tm.process_task(task)
+                nd["bip"].unregister()
             elif op == "unregister":
                 nd["bip"].unregister()
             elif op == "detach":
@@ -877,6 +939,7 @@ class Spec:
                 if nd["kind"] == "bbmd":
                     self.bdt[a] = [(tuple(e[:2]), e[2]) for e in nd["bdt"]]
         self.detached = set()
+        self.unreg = {}      # fd -> (instant of the application's unregister(), BBMD it addressed)
         self.reg = {}        # fd -> dict(bbmd, ttl, t0)   current registration of a real foreign device
         self.arrivals = collections.defaultdict(list)   # (bbmd, addr) -> [(t, "reg", ttl) | (t, "del")]
         self.mode = scn["mode"]
@@ -949,13 +1012,22 @@ class Spec:
         if op == "register":
             f, b = tuple(ev["a"]), tuple(ev["bbmd"])
             self.close_registration(f, t - 1)
+            self.unreg.pop(f, None)
             self.reg[f] = {"bbmd": b, "ttl": ev["ttl"], "t0": t, "t00": t, "acked": self.is_bbmd(b)}
+        elif op == "regunreg":
+            # register() immediately followed by unregister(): whatever was in flight, the last thing the
+            # BBMD hears from the device is TTL 0, and the device has left
+            f, b = tuple(ev["a"]), tuple(ev["bbmd"])
+            self.close_registration(f, t - 1)
+            self.arrivals[(b, f)].append((t, "reg", 0))
+            self.unreg[f] = (t, b)
         elif op == "unregister":
             f = tuple(ev["a"])
             r = self.reg.get(f)
             self.close_registration(f, t - 1)
             if r:
                 self.arrivals[(r["bbmd"], f)].append((t, "reg", 0))
+                self.unreg[f] = (t, r["bbmd"])
         elif op == "sap" and ev["msg"][0] == "reg":
             self.canonical = False       # an ordinary node posing as a foreign device: outside bbmd_once
             self.arrivals[(tuple(ev["to"]), tuple(ev["a"]))].append((t, "reg", ev["msg"][1]))
@@ -1084,6 +1156,8 @@ def world_oracle(ctx, scn, real):
         t = ev["t"]
         for o in r["adv"] + r["obs"]:
             if o[0] == "err":
+                if ev["op"] == "unregister" and tuple(ev["a"]) not in sp.reg and o[2] in ("RuntimeError", "AttributeError"):
+                    continue    # unregister() of a device that is not registered: the call itself raises (notes)
                 ctx.fail("unexpected-exception", case, "exception %s at node %r" % (o[2], o[1]))
         if r["adv"]:
             ctx.fail("spontaneous", case, "PDUs handed upward while only time passed: %r" % (r["adv"][:3],))
@@ -1103,6 +1177,11 @@ def world_oracle(ctx, scn, real):
             # (an originator hears itself only where the tables send its own broadcast back at it: a
             #  foreign device inside a subnet its BBMD broadcasts to, a BDT entry naming an ordinary
             #  node — both outside the hypotheses of bbmd_once; the characterisation predicts them)
+            for f, (u, _b) in sp.unreg.items():
+                if got[f]:
+                    ctx.fail("served-after-unregister", case,
+                             "foreign device %r called unregister() at t=%d and is still handed broadcasts at t=%d" % (f, u, t),
+                             node=list(f), unregistered_at=u)
             if got[o_addr] and not want[o_addr] and not skip:
                 ctx.fail("echo", case, "broadcast handed back to its originator %r (%d times)" % (o_addr, got[o_addr]))
             # nodes outside the hypotheses: a foreign device on the subnet of its own BBMD
@@ -1163,8 +1242,26 @@ def world_oracle(ctx, scn, real):
                 if pres and (e[2] != ttl or e[3] != (last // 1000000) + ttl + 5 - (t // 1000000)):
                     ctx.fail("fdt-remaining", case, "BBMD %r entry %r: expected ttl %r remaining %r" % (
                         b, e, ttl, (last // 1000000) + ttl + 5 - (t // 1000000)))
+        # the unregistration clause, from the application's call alone (no model, no table inspection):
+        # the device never registers again by itself ...
+        for a, d in r["digest"]:
+            if d[0] == "foreign" and tuple(a) in sp.unreg:
+                u = sp.unreg[tuple(a)][0]
+                if d[1] == 0 or d[4] is not None:
+                    ctx.fail("unregister-ignored", case,
+                             "foreign device %r called unregister() at t=%d; at t=%d its status is %r and a renewal is "
+                             "armed for %r — it (re-)registers by itself" % (a, u, t, d[1], d[4]),
+                             node=list(a), unregistered_at=u)
         if ev["op"] == "sap" and ev["msg"][0] == "rfdt" and sp.is_bbmd(tuple(ev["to"])) and sp.alive(tuple(ev["a"])):
             acks = [o for o in r["obs"] if o[0] == "sap" and o[3][0] == "rfdtack"]
+            # ... and 5 s after the call the BBMD it left no longer lists it (Read-FDT over the wire)
+            for f, (u, b) in sp.unreg.items():
+                if b == tuple(ev["to"]) and t >= u + 5000000:
+                    for ack in acks:
+                        if list(f) in [e[:2] for e in ack[3][1]]:
+                            ctx.fail("unregistered-still-listed", case,
+                                     "foreign device %r called unregister() at t=%d; Read-FDT at t=%d still lists it: %r" % (
+                                         f, u, t, ack[3][1]), node=list(f), unregistered_at=u)
             tbl = tables.get(tuple(ev["to"]))
             if len(acks) != 1 or tbl is None or acks[0][3][1] != tbl[3] or acks[0][1] != ev["a"]:
                 ctx.fail("read-fdt", case, "Read-FDT answered %r, table is %r" % (acks, tbl and tbl[3]))
